@@ -10,7 +10,7 @@ LEVEL_TEXT = (
     'from the blocks; (b) in from_blocks each accepted block updates block list, index and dtype directory, column count and block '
     'counter together, unconditionally, with index entries written before the counter advances, after the row-count check and the '
     'zero-width skip; TypeBlocks.append moves _shape/_index/_dtypes/_blocks in lock-step; (c) every normal exit of Frame.__init__ / '
-    'Series.__init__ has passed the final size checks (must-pass-through over all paths, deferred constructors included); (d) every loop that walks the blocks with a running column offset advances the offset on every path to the next iteration (`continue` included). '
+    'Series.__init__ has passed the final size checks (must-pass-through over all paths, deferred constructors included); (d) every loop that walks the blocks with a running column offset advances the offset on every path to the next iteration (`continue` included); (e) a per-block cast guarded by a test on the block\'s dimensionality has a sibling cast on the other layout (layout transparency of dtype resolution). '
     'Not decided: layout transparency of results (equal answers for every composition of the columns into blocks) — a statement '
     'about array arithmetic at block boundaries; a per-subscript ndim-guard rule was prototyped at design time and rejected as a false '
     'alarm in waiting.')
@@ -27,4 +27,5 @@ def run(ctx: Ctx) -> None:
     blockrules.from_blocks_lockstep(ctx)
     blockrules.final_shape_checks(ctx)
     blockrules.offset_discipline(ctx)
+    blockrules.layout_independent_casts(ctx)
     atomic.d_atomic(ctx, only=('type_blocks.',))
